@@ -34,7 +34,7 @@ LEVEL_NOTE = "Trusted: the harness's model of the documented rule; proposals com
 def budget(tier):
     if tier == "quick":
         return dict(max_examples=160, workers=6, time_s=170, min_cases=60)
-    return dict(max_examples=4000, workers=16, time_s=1200, min_cases=1000)
+    return dict(max_examples=4000, workers=16, time_s=1200, min_cases=120)
 
 
 @st.composite
